@@ -8,6 +8,7 @@ require (
 	github.com/buzzfeed/sso v0.0.0
 	github.com/datadog/datadog-go v0.0.0-20180822151419-281ae9f2d895
 	github.com/sirupsen/logrus v1.4.2
+	golang.org/x/net v0.21.0
 )
 
 require (
@@ -28,7 +29,6 @@ require (
 	github.com/mitchellh/mapstructure v1.1.2 // indirect
 	github.com/rakyll/statik v0.1.7 // indirect
 	go.opencensus.io v0.22.0 // indirect
-	golang.org/x/net v0.21.0 // indirect
 	golang.org/x/oauth2 v0.0.0-20190604053449-0f29369cfe45 // indirect
 	golang.org/x/sync v0.1.0 // indirect
 	golang.org/x/sys v0.19.0 // indirect
